@@ -16,6 +16,9 @@ CLAIMED = {
  "C04": ("§7 C04", "Every output the real Writers produce for the C01 alphabet is judged only by independent decoders (strict binary validator / text grammar parser + symbol context machine), and every integer codec is enumerated over 0..2^16 and all 2^k±2 with length-function/bytes agreement.",
          "Trusts refbin, reftext and refsym; ion-go's Reader is never consulted.",
          "exhaustive enumeration of writer inputs and codec arguments on the implementation, outputs validated by an independent reference decoder"),
+ "C15": ("§7 C15", "The full product of calendar boundary dates x precisions x times x offsets (incl. those crossing UTC year 0/10000) x fraction digit counts and coefficients is pushed through the Go constructor, String, ParseTimestamp, both writers and readers and every reference binary encoding; plus a rejection catalogue in text and binary, sub-nanosecond rounding around every half-unit boundary, and ordered pairs of timestamps in one stream.",
+         "Trusts refmodel's calendar arithmetic (no time.Time) and the reference codecs; dates outside the grid are not covered.",
+         "explicit enumeration of a boundary grid on the implementation vs an independent calendar model"),
  "C05": ("§7 C05", "Source documents produced by the reference printer/encoder (the whole value generator, plus every history of <=4 symbol-table events under five catalogs) in text and binary are copied by the documented copy loop into text, pretty and binary Writers; the independent decoder must read back the values the reference context machine assigns to the source, symbols compared by text.",
          "Trusts refsym/refbin/reftext; longer histories are not covered; symbols whose text the source does not know are judged on histories of <=3 events (known findings).",
          "explicit enumeration of source histories x destinations, replayed through the real Reader and Writer, judged by an independent decoder"),
